@@ -1639,7 +1639,7 @@ func TestFaults(t *testing.T) {
 // outcome, that is C20/polling-stalled.
 func TestPollingRealWait(t *testing.T) {
 	const name = "lifecycle/real-wait"
-	ev.Rule(name, "grid {rotate, bootstrap-signing with a pre-existing pending version, bootstrap-root on a fresh key} x polls answered PENDING_GENERATION {1,2} x final {ENABLED, GENERATION_FAILED, DISABLED, never (context ends)}; quick tier: only (rotate,1,ENABLED), (bootstrap-signing,1,ENABLED), (bootstrap-root,1,GENERATION_FAILED); the code's real 5 s sleeps happen, cases run in parallel; same oracles as the generated cases plus: the code must come back for the poll that reports the outcome (hang guard, see C20/polling-stalled); all non-trivial")
+	ev.Rule(name, "grid {rotate, bootstrap-signing with a pre-existing pending version, bootstrap-root on a fresh key} x polls answered PENDING_GENERATION {1,2} x final {ENABLED, GENERATION_FAILED, DISABLED, never (context ends)}; quick tier: only (rotate,2,ENABLED), (bootstrap-signing,1,ENABLED), (bootstrap-root,1,GENERATION_FAILED); the code's real 5 s sleeps happen, cases run in parallel; same oracles as the generated cases plus: the code must come back for the poll that reports the outcome (hang guard, see C20/polling-stalled); all non-trivial")
 	shard, _ := strconv.Atoi(os.Getenv("VERIF_SHARD"))
 	nshards, _ := strconv.Atoi(os.Getenv("VERIF_NSHARDS"))
 	if nshards < 1 {
@@ -1658,7 +1658,13 @@ func TestPollingRealWait(t *testing.T) {
 					if op == "bootstrap-root" {
 						want = kmspb.CryptoKeyVersion_GENERATION_FAILED
 					}
-					if polls != 1 || final != want {
+					// rotate waits through TWO pending answers (10 s): a poll loop that only comes back
+					// once (a timer armed a single time) is invisible with one pending answer
+					wantPolls := 1
+					if op == "rotate" {
+						wantPolls = 2
+					}
+					if polls != wantPolls || final != want {
 						continue
 					}
 				} else if i%nshards != shard%nshards {
